@@ -116,6 +116,16 @@ func VerifyMerkle(block *pb.InternalBlock) error {
 		if !(bytes.Equal(merkleRoot, block.MerkleRoot)) {
 			return errors.New("merkle root is wrong, block id:" + utils.F(blockid) + ",block merkle root:" + utils.F(block.MerkleRoot) + ", make merkle root:" + utils.F(merkleRoot))
 		}
+		// the tree the block carries is stored with the header and its leaves are what every later read
+		// rebuilds the body from: it has to be the tree of the body
+		if len(block.MerkleTree) != len(merkleTree) {
+			return errors.New("merkle tree is wrong, block id:" + utils.F(blockid))
+		}
+		for i := range merkleTree {
+			if !bytes.Equal(block.MerkleTree[i], merkleTree[i]) {
+				return errors.New("merkle tree is wrong, block id:" + utils.F(blockid))
+			}
+		}
 		return nil
 	} else {
 		return errors.New("can not make merkle tree , block id:" + utils.F(blockid))
